@@ -71,6 +71,16 @@ class _C16(Spec):
                 names = sorted({a or b for a, b in frames})
                 failing.append(("race-detector", "locks racepairs", "data race in utils/mapset between operations touching %s while running pair %s: %s" % (
                     "/".join(names[:6]), nxt.group(1) if nxt else "?", " | ".join(l.strip() for l in body.splitlines()[:3]))))
+        # seeded random concurrent histories checked for linearizability on the real code (schedule
+        # perturbed through the hook); the theorem side of this clause is NOT proved (partial)
+        nh = 4000 if tier == "quick" else 60000
+        lin_summary = []
+        for k in range(4):
+            resp, raw = core.ask(core.ORACLE, ["locks linhist %d %d" % (nh // 4, rng.randrange(1 << 30))])
+            lin_summary.append(resp[0])
+            for item in raw[0].split("\t")[1:]:
+                if item.startswith("!PROP C16 "):
+                    failing.append(("linearizability", "locks linhist", item[len("!PROP C16 "):]))
         und = undisciplined(recorded_entries()[0], "discA1")
         for k in und:
             notes.append("recorded sequence of %s(%s) fails the access discipline" % k)
@@ -89,7 +99,7 @@ class _C16(Spec):
                                 "data race in utils/mapset: %s(%s) running against Add/Remove on its operands: %s" % (op, pat, " | ".join(l.strip() for l in body.splitlines()[:12] if l.strip()))))
                 break
         return {"failing": failing[:10], "broken": broken, "notes": notes,
-                "coverage": {"race_detector_pairs": pairs, "race_reports_in_mapset": reports, "undisciplined_entries": ["%s(%s)" % k for k in und]}}
+                "coverage": {"linearizability_histories": lin_summary, "race_detector_pairs": pairs, "race_reports_in_mapset": reports, "undisciplined_entries": ["%s(%s)" % k for k in und]}}
 
     def exhaustive(self, tier):
         return True
